@@ -225,6 +225,11 @@ def get(flavor):
         if os.path.exists(os.path.join(root, "bin", "nanoc_c")) and not os.path.exists(os.path.join(root, "bin", "nanoc")):
             os.symlink("nanoc_c", os.path.join(root, "bin", "nanoc"))
         _build_probes(root, fl, log)
+        # the tree is hashed first and copied afterwards: if /repo (or the probes) changed in between, the copy
+        # does not correspond to its key - never serve it
+        if tree_hash() != current_hash():
+            shutil.rmtree(root, ignore_errors=True)
+            raise BuildError("the tree under %s changed while flavor %s was being built; run the check again" % (REPO, flavor))
         with open(os.path.join(root, ".built"), "w") as f:
             f.write("%.1f\n" % (time.time() - t0))
         _prune(flavor, key)
